@@ -23,7 +23,7 @@ RULE = ("Hypothesis: graphs whose instance IRIs are built from drawn scheme (htt
         "constraints equal to those of a run without the options.  Non-trivial: >=2 instances whose IRIs diverge after a shared segment; "
         "distinct by SHA-1 of the case.")
 ASSUMPTIONS = c01.ASSUMPTIONS
-BUDGET = {"quick": {"examples": 8000, "wall": 150}, "thorough": {"examples": 800000, "wall": 5400}}
+BUDGET = {"quick": {"examples": 24000, "wall": 150}, "thorough": {"examples": 800000, "wall": 5400}}
 FLOORS = {"nontrivial": 0.15, "stem-printed": 0.15, "stem-absent": 0.02, "examples": 0.2}
 SCHEME_ONLY = ("http://", "https://", "http:", "https:", "http:/", "https:/")
 
@@ -32,8 +32,11 @@ SCHEME_ONLY = ("http://", "https://", "http:", "https:", "http:/", "https:/")
 def node_iri(draw, base):
     fam, host = base
     if draw(st.integers(0, 7)) == 0:
-        fam = draw(st.sampled_from(["http", "https", "urn"]))
+        fam = draw(st.sampled_from(["http", "https", "urn", "ex", "a"]))
         host = draw(st.sampled_from(["ex.org", "example.com"]))
+    if fam in ("ex", "a", "ab"):
+        # one- and two-letter schemes: the stem 'ex:' has exactly three characters (printed), 'a:' two (not printed)
+        return "%s:%s%d" % (fam, draw(st.sampled_from(["n", "alice", "b/c", "item"])), draw(st.integers(0, 3)))
     if fam == "urn":
         return "urn:x:" + draw(st.sampled_from(["a", "ab", "b:c"])) + str(draw(st.integers(0, 3)))
     path = draw(st.sampled_from(["", "res/", "res/", "rest/", "res/item/", "v#", "res#", "item:1", "item:10", "isbn:978"]))
@@ -47,7 +50,7 @@ def node_iri(draw, base):
 @st.composite
 def cases(draw):
     n_nodes = draw(st.integers(1, 6))
-    base = (draw(st.sampled_from(["http", "http", "https", "urn"])), draw(st.sampled_from(["ex.org", "ex.org", "example.com"])))
+    base = (draw(st.sampled_from(["http", "http", "http", "https", "urn", "urn", "ex", "ab", "a"])), draw(st.sampled_from(["ex.org", "ex.org", "example.com"])))
     nodes = []
     for i in range(n_nodes):
         if draw(st.integers(0, 7)) == 0:
